@@ -26,30 +26,36 @@ LEVEL = "proof"
 ENGINES = ["lean-model", "kopfsim"]
 LEVEL_TEXT = ("Lean theorems for every label list (no bound) of an LTS of watcher/worker/Scheduler: stream entry <=> exactly "
               "one live worker, arrived = processed ++ inflight ++ backlog while the watch is alive (order, no loss, no "
-              "duplicate), at most one busy worker per key, quiescent => everything processed, running <= limit, "
-              "independence of keys; broken-variant witness. Tie: trace acceptance of the real queueing.watcher under "
+              "duplicate; sub-sequence in EVERY state incl. shutdown), at most one busy worker per key, quiescent => everything "
+              "processed, every internal segment decreases a measure (no livelock; quiescence is reached within `measure` "
+              "segments, so 'is still processed' is a statement about executions), running <= limit, spawn enabled iff "
+              "pending and running<limit, pending queue FIFO, frame; broken-variant witness. The event->key map (get_uid incl. "
+              "its uid-less fallback) is NOT modelled (Key is opaque): covered by the oracle and a grid check only. Tie: trace acceptance of the real queueing.watcher under "
               "virtual time incl. arrivals exactly on the idle deadline in both tie orders. This kopf has no batching in "
               "worker() (batch_window is deprecated and ignored), so 'processed' means every single event.")
 TIE = "A: every atomic segment of the real watcher/worker/Scheduler logged as a label + state snapshot, replayed by the Lean LTS"
 THEOREMS = [
     ("Kopf.Props.C01", "Kopf.C01.stream_iff_worker"),
+    ("Kopf.Props.C01", "Kopf.C01.closed_may_orphan_stream"),
     ("Kopf.Props.C01", "Kopf.C01.lossless_ordered"),
     ("Kopf.Props.C01", "Kopf.C01.ordered_always"),
     ("Kopf.Props.C01", "Kopf.C01.inflight_spec"),
     ("Kopf.Props.C01", "Kopf.C01.serial"),
     ("Kopf.Props.C01", "Kopf.C01.serial_step"),
     ("Kopf.Props.C01", "Kopf.C01.serial_step_timeout"),
-    ("Kopf.Props.C01", "Kopf.C01.quiescent_complete"),
     ("Kopf.Props.C01", "Kopf.C01.limit_respected"),
-    ("Kopf.Props.C01", "Kopf.C01.independent_take"),
-    ("Kopf.Props.C01", "Kopf.C01.independent_finish"),
+    ("Kopf.Props.C01", "Kopf.C01.quiescent_complete"),
+    ("Kopf.Props.C01", "Kopf.C01.internal_terminates"),
+    ("Kopf.Props.C01", "Kopf.C01.internal_run_bounded"),
+    ("Kopf.Props.C01", "Kopf.C01.reaches_quiescence"),
+    ("Kopf.Props.C01", "Kopf.C01.eventually_processed"),
+    ("Kopf.Props.C01", "Kopf.C01.limit_zero_starves"),
     ("Kopf.Props.C01", "Kopf.C01.independent_spawn"),
+    ("Kopf.Props.C01", "Kopf.C01.pendingQ_fifo"),
     ("Kopf.Props.C01", "Kopf.C01.frame_other_key"),
     ("Kopf.Props.C01", "Kopf.C01.buggy_loses"),
-    ("Kopf.Props.C01", "Kopf.C01.limit_zero_starves"),
-    ("Kopf.Props.C01", "Kopf.C01.closed_may_orphan_stream"),
-    ("Kopf.Props.C01", "Kopf.C01.limit_const"),
 ]
+# not counted (Lemmas/C01_Frame.lean): limit_const, take_reads_own_component, finish_reads_own_component
 RULE = ("scripted watch streams of 1-4 objects (with/without uid), 2-12 events, idle_timeout/worker_limit/exit_timeout/"
         "consistency scripted, processor durations incl. 0 and idle±1, raising processors, watcher cancellation; arrivals "
         "placed EXACTLY on last_activity+idle_timeout and ±1 tick (adaptive: read off the worker's own wait_for), each "
@@ -60,6 +66,14 @@ TRUSTED = ["CPython asyncio (Queue, wait_for, timeouts, Condition, Task cancella
            "harness/props/sim_c01.py hook placement: each label is logged inside the atomic segment it names",
            "the actual order CPython gives to same-instant timers is not predicted: both orders are executed"]
 ASSUMPTIONS = ["the Kubernetes API never reorders events of one object (the scripted stream is the delivered order)",
+               "one watcher per object: C01 is per `watcher()` call (its own `streams` dict and Scheduler). kopf starts one "
+               "watcher per (resource, namespace) and refuses cluster-wide + namespaced together (running.py raises TypeError); "
+               "the same object served under two API versions/resources is two objects for the multiplexer. Overlapping "
+               "watch scopes are C19/C20's subject, not modelled here",
+               "get_uid: the key of an event is metadata.uid, else '//'.join(kind, apiVersion, name, namespace, creationTimestamp "
+               "with None -> '-'): not modelled in Lean; oracle O6 on every run + an exhaustive grid through the real get_uid "
+               "(same object <=> same key for valid Kubernetes names, i.e. no '//' inside and no component literally '-'); "
+               "two uid-less incarnations of one name without creationTimestamp share a key by design (docstring of get_uid)",
                "processors do not swallow cancellation",
                "idle_timeout <= 0 is covered since /repo d07cc0b (finding F1, fixed): generated with idle_timeout 0 and -1"]
 
@@ -412,6 +426,10 @@ def check_traces(results: list[dict], driver: leanio.Driver) -> list[dict]:
                                      "label": ans.get("label"), "reason": ans.get("reason"), "model_state": ans.get("model"),
                                      "labels_before": r["request"][2][max(0, (ans.get("index") or 0) - 6):(ans.get("index") or 0) + 1]}})
             continue
+        if r["outcome"] in ("ended", "cancelled", "escalated") and ans["final"].get("measure") != 0:
+            fails.append({"what": f"the watcher has finished but the model's termination measure is {ans['final'].get('measure')} != 0",
+                          "replay": {"scenario": r["scn"], "policy": r["policy"], "final": ans["final"]}})
+            continue
         model_proc = {k: v for k, v in ans["final"]["processed"] if v}
         if model_proc != {k: v for k, v in r["processed"].items() if v}:
             fails.append({"what": "model's processed histories differ from the processor call log",
@@ -471,7 +489,44 @@ def load_corpus() -> list[tuple[str, dict]]:
     return [(p.name, json.loads(p.read_text())) for p in sorted(d.glob("*.json"))]
 
 
+def check_get_uid(ctx: Ctx) -> None:
+    """The event -> key map is outside the Lean model: exhaustive grid through the real `get_uid`.
+    Oracle (from the property: 'events of one object' / 'different objects'): with a uid the key is the uid;
+    without, two events get the same key iff kind/apiVersion/name/namespace/creationTimestamp agree (absent = None)."""
+    import itertools
+    from kopf._core.reactor import queueing
+    vals = {"kind": [None, "A", "B"], "apiVersion": [None, "v1"], "name": ["x", "y"], "namespace": [None, "ns", "x"],
+            "creationTimestamp": [None, "t1", "t2"]}
+    tuples = list(itertools.product(*vals.values()))
+    keys = {}
+    for absent_style in (0, 1):       # field missing vs. field present with None
+        for t in tuples:
+            d = dict(zip(vals, t))
+            body: dict = {"metadata": {}}
+            for f in ("kind", "apiVersion"):
+                if d[f] is not None or absent_style:
+                    body[f] = d[f]
+            for f in ("name", "namespace", "creationTimestamp"):
+                if d[f] is not None or absent_style:
+                    body["metadata"][f] = d[f]
+            k = queueing.get_uid({"type": "MODIFIED", "object": body})
+            ctx.case(key=f"get_uid:{t}:{absent_style}", nontrivial=True)
+            if keys.setdefault(k, t) != t:
+                ctx.oracle_fail(f"get_uid maps two different uid-less objects {keys[k]} and {t} to one key {k!r}",
+                                {"get_uid": [list(keys[k]), list(t)]}, {"site": "queueing.get_uid", "check": "key"})
+        for t in tuples:
+            if sum(1 for k, v in keys.items() if v == t) != 1:
+                ctx.oracle_fail(f"get_uid gives one uid-less object {t} several keys", {"get_uid": list(t)},
+                                {"site": "queueing.get_uid", "check": "key"})
+    for uid in ("u", "A//v1//x//-//-", "é"):
+        body = {"kind": "A", "apiVersion": "v1", "metadata": {"uid": uid, "name": "x"}}
+        if queueing.get_uid({"object": body}) != uid:
+            ctx.oracle_fail("get_uid ignores metadata.uid", {"uid": uid}, {"site": "queueing.get_uid", "check": "key"})
+    ctx.count("source", "get_uid grid", 2 * len(tuples) + 3)
+
+
 def run(ctx: Ctx) -> None:
+    check_get_uid(ctx)
     policies = POLICIES_T if ctx.tier == "thorough" else POLICIES_Q
     # ---- corpus first -----------------------------------------------------------------------------
     corpus_results = []
